@@ -32,14 +32,17 @@ structure Cfg where
   openStoreFirst : Bool
   /-- the worker resets `retrigger_compilation` when it picks a request up (not after compiling). -/
   clearAtRecv : Bool
-  /-- environment (LSP): the first client event is a `didOpen`. -/
+  /-- environment (LSP): the first client event is a `didOpen` of a file of a valid project. -/
   openedFirst : Bool
+  /-- (seeded mutant, `false` for every version of the real code) `did_open` stores
+  `is_compiling = true` at its very top, before the fallible workspace / session look-ups. -/
+  openStoreEarly : Bool := false
 deriving DecidableEq, Repr
 
 /-- The code before the `fix:` commit. -/
-def Cfg.orig : Cfg := ⟨false, false, false, true⟩
+def Cfg.orig : Cfg := ⟨false, false, false, true, false⟩
 /-- The code after the `fix:` commit. -/
-def Cfg.fixed : Cfg := ⟨true, true, true, true⟩
+def Cfg.fixed : Cfg := ⟨true, true, true, true, false⟩
 
 inductive Kind | open | change | save | wait
 deriving DecidableEq, Repr
@@ -66,6 +69,10 @@ deriving DecidableEq, Repr
 /-- Handler program counter. `s*` = `send_new_compilation_request`, `p*` = `wait_for_parsing`. -/
 inductive HPc
   | absent
+  | hInit (k : Kind) (valid : Bool) -- in the fallible look-ups at the start of the handler (`…?`): a handler
+                           -- for a file of a valid project passes them, any other returns its error here,
+                           -- before it has queued anything
+  | oSetIcEarly (valid : Bool) -- (mutant) did_open: `is_compiling.store(true)` before the look-ups
   | oSetIc                 -- did_open: `is_compiling.store(true)` before the send (fixed)
   | cWrite                 -- did_change: `write_changes_to_file`
   | sLoadIc (k : Kind)     -- `is_compiling.load()`
@@ -107,7 +114,7 @@ inductive WLabel
 deriving DecidableEq, Repr
 
 inductive HLabel
-  | spawn (k : Kind) | setIc | write | loadIc | storeRt | isFull | tryRecv | send
+  | spawn (k : Kind) (valid : Bool) | lookup | fail | setIc | write | loadIc | storeRt | isFull | tryRecv | send
   | snap | pLoadIc | readLs | pIsEmpty | wake
 deriving DecidableEq, Repr
 
@@ -122,11 +129,18 @@ def afterSend (c : Cfg) : Kind → HPc
   | .save => waitStart c
   | .wait => .done
 
-def spawnPc (c : Cfg) : Kind → HPc
-  | .open => if c.openStoreFirst then .oSetIc else .sLoadIc .open
+def spawnPc (c : Cfg) (valid : Bool) : Kind → HPc
+  | .open => if c.openStoreEarly then .oSetIcEarly valid else .hInit .open valid
+  | .change => .hInit .change valid
+  | .save => .hInit .save valid
+  | .wait => waitStart c
+
+/-- After the look-ups of a handler succeeded. -/
+def afterLookup (c : Cfg) : Kind → HPc
+  | .open => if c.openStoreFirst && !c.openStoreEarly then .oSetIc else .sLoadIc .open
   | .change => .cWrite
   | .save => .sLoadIc .save
-  | .wait => waitStart c
+  | .wait => .done
 
 /-- One worker step. `recv`, `chk`, `read`, `finish` are not visible in traces. -/
 def wstep (c : Cfg) (s : State) : WLabel → Option State
@@ -154,12 +168,23 @@ def wstep (c : Cfg) (s : State) : WLabel → Option State
 
 /-- One step of handler `i`. -/
 def hstep (c : Cfg) (s : State) (i : Nat) : HLabel → Option State
-  | .spawn k =>
-      if i = s.n ∧ (c.openedFirst = true → (k = .open ∨ s.opened = true)) then
-        some { s with h := upd s.h i (spawnPc c k), n := s.n + 1, opened := s.opened || decide (k = .open) }
+  | .spawn k v =>
+      if i = s.n ∧ (c.openedFirst = true → ((k = .open ∧ v = true) ∨ s.opened = true)) then
+        some { s with h := upd s.h i (spawnPc c v k), n := s.n + 1,
+                      opened := s.opened || (decide (k = .open) && v) }
       else none
+  | .lookup =>
+      match s.h i with
+      | .hInit k true => some { s with h := upd s.h i (afterLookup c k) }
+      | _ => none
+  | .fail =>
+      match s.h i with
+      | .hInit _ false => some { s with h := upd s.h i .done }
+      | .cWrite => some { s with h := upd s.h i .done }   -- the write failed: nothing written, nothing queued
+      | _ => none
   | .setIc =>
       match s.h i with
+      | .oSetIcEarly v => some { s with ic := true, h := upd s.h i (.hInit .open v) }
       | .oSetIc => some { s with ic := true, h := upd s.h i (.sLoadIc .open) }
       | .oSetIcLate => some { s with ic := true, h := upd s.h i (waitStart c) }
       | _ => none
@@ -253,6 +278,7 @@ def coopYield (c : Cfg) : HPc → Bool
   | .done => true
   | .absent => true
   | .pAwait _ => true
+  | .hInit .open _ => true
   | .oSetIc => true
   | .sLoadIc .open => !c.openStoreFirst
   | .sLoadIc .change => true
@@ -295,7 +321,12 @@ def tauClose1 (c : Cfg) (s : State) : List State :=
     | _ => []
   let s3 := (wstep c s .read).toList
   let s4 := (wstep c s .finish).toList
-  s1 ++ s2 ++ s3 ++ s4
+  -- handler look-ups (success or early error return) have no hook point either
+  let s5 := (List.range s.n).flatMap fun i =>
+    (match s.h i with
+     | .hInit _ _ => (hstep c s i .lookup).toList ++ (hstep c s i .fail).toList
+     | _ => [])
+  s1 ++ s2 ++ s3 ++ s4 ++ s5
 
 def tauClose (c : Cfg) : Nat → List State → List State
   | 0, ss => ss
@@ -306,6 +337,7 @@ def tauClose (c : Cfg) : Nat → List State → List State
 /-- Finite fingerprint of a state (all handlers live below `s.n`), used to merge equal candidates. -/
 def HPc.code : HPc → List Nat
   | .absent => [0] | .oSetIc => [1] | .cWrite => [2]
+  | .hInit k v => [15, kindCode k, v.toNat] | .oSetIcEarly v => [16, v.toNat]
   | .sLoadIc k => [3, kindCode k] | .sStoreRt k => [4, kindCode k] | .sFull k => [5, kindCode k]
   | .sDrain k => [6, kindCode k] | .sSend k => [7, kindCode k] | .oSetIcLate => [8] | .pSnap => [9]
   | .pLoadIc sn => [10, sn] | .pReadLs sn => [11, sn] | .pEmpty sn => [12, sn] | .pAwait sn => [13, sn]
@@ -332,7 +364,7 @@ structure Ev where
 
 /-- Model actions of a visible event in state `s` (`none` = not a legal event here, `some []` =
 marker without effect). -/
-def evActs (s : State) (e : Ev) : Option (List Act) :=
+def evActs1 (s : State) (e : Ev) : Option (List Act) :=
   if e.tid = 0 then
     match e.name with
     | "w_recv_wait" => some []
@@ -350,10 +382,10 @@ def evActs (s : State) (e : Ev) : Option (List Act) :=
   else
     let i := e.tid - 1
     match e.name with
-    | "o_enter" => some [.h i (.spawn .open)]
-    | "c_enter" => some [.h i (.spawn .change)]
-    | "v_enter" => some [.h i (.spawn .save)]
-    | "p_enter" => if i = s.n then some [.h i (.spawn .wait)] else some []
+    | "o_enter" => some [.h i (.spawn .open true)]
+    | "c_enter" => some [.h i (.spawn .change true)]
+    | "v_enter" => some [.h i (.spawn .save true)]
+    | "p_enter" => if i = s.n then some [.h i (.spawn .wait true)] else some []
     | "o_ic_store" => some [.h i .setIc]
     | "c_write" => some [.h i .write]
     | "s_ic_load" => some [.h i .loadIc]
@@ -370,11 +402,16 @@ def evActs (s : State) (e : Ev) : Option (List Act) :=
     | "p_wake" => some [.h i .wake]
     | _ => none
 
+/-- Alternatives: the trace does not say whether a handler that enters will pass its look-ups. -/
+def evActs (s : State) (e : Ev) : List (List Act) :=
+  match evActs1 s e with
+  | none => []
+  | some [.h i (.spawn k true)] => [[.h i (.spawn k true)], [.h i (.spawn k false)]]
+  | some as => [as]
+
 def stepEv (c : Cfg) (ss : List State) (e : Ev) : List State :=
-  dedupStates ((dedupStates (tauClose c 6 ss)).filterMap fun s =>
-    match evActs s e with
-    | some as => run c s as
-    | none => none)
+  dedupStates ((dedupStates (tauClose c 6 ss)).flatMap fun s =>
+    (evActs s e).filterMap fun as => run c s as)
 
 def runTrace (c : Cfg) (ss : List State) : List Ev → List State
   | [] => dedupStates (tauClose c 6 ss)
